@@ -24,7 +24,8 @@ CONSTANTS Kind,        \* "cipher" or "mac"
           LongOctets,  \* a few long inputs (octets) for every algorithm and both entry points
           SeqGroups    \* number of same-parameter call sequences per algorithm and entry point
 VARIABLE c
-ZC == JsonDeserialize("zuc_corners.json")          \* frozen corner points of the ZUC arithmetic modulo 2^31-1 (tools/zuccorners)
+ZC == JsonDeserialize("zuc_corners.json")
+KC == JsonDeserialize("ks_corners.json")           \* frozen keystream corner points (a repeated / all-zero / all-ones keystream word)          \* frozen corner points of the ZUC arithmetic modulo 2^31-1 (tools/zuccorners)
 Zero(n) == [i \in 1..n |-> 0]
 Ones(n) == [i \in 1..n |-> 255]
 Walk(n, b) == [i \in 1..n |-> IF i = (b \div 8) + 1 THEN 2^(7 - (b % 8)) ELSE 0]      \* bit b (0 = most significant) set
@@ -85,7 +86,10 @@ Corners ==
      i \in {j \in 1..Len(ZC) : ZC[j].kind = (IF Kind = "cipher" THEN "eea3" ELSE "eia3")}, op \in {FnOp, WrOp}, n \in {256}}
   \cup {Case(FnOp, 3, ZC[i].key, ZC[i].cnt, ZC[i].bearer, ZC[i].dir, 67, 1) :
      i \in {j \in 1..Len(ZC) : ZC[j].kind = (IF Kind = "cipher" THEN "eea3" ELSE "eia3")}}
-Cases == Corners \cup UNION {Grid(a) \cup Dense(a) \cup Walking(a) \cup Long(a) \cup Sequences(a) : a \in 1..3}
+\* keystream corner points: the message reaches two words past the word in question (and stops right after it), both entry points
+KsCorners == IF Kind # "cipher" THEN {} ELSE
+  {Case(op, KC[i].alg, KC[i].key, KC[i].cnt, KC[i].bearer, KC[i].dir, 32 * (KC[i].word + d), 2) : i \in 1..Len(KC), op \in {FnOp, WrOp}, d \in {1, 3}}
+Cases == Corners \cup KsCorners \cup UNION {Grid(a) \cup Dense(a) \cup Walking(a) \cup Long(a) \cup Sequences(a) : a \in 1..3}
          \cup (IF Kind = "cipher" THEN Raw("GetKeyStream") \cup Raw("Zuc") \cup LongRaw("GetKeyStream") \cup LongRaw("Zuc")
                                         \cup SeqRaw("GetKeyStream", 3) \cup SeqRaw("Zuc", 4) ELSE {})
 Root == Case("root", 0, <<>>, <<>>, 0, 0, 0, 0)
